@@ -1,7 +1,7 @@
 CONSTANTS
   MaxN = 2
   MaxDeps = 2
-  Classes = {"ok", "Transport", "ErrorsNoData"}
+  Classes = {"ok", "Transport", "ErrorsNoData", "PartialData", "Non2xxJSON"}
   MaxFaults = 2
   Ents = {1, 2}
 SPECIFICATION BrokenSpec
